@@ -109,7 +109,7 @@ func encPool(code []byte, consts []interface{}, full bool) (string, [][]byte) {
 // constants as vm.Compile, (2) the verified verifier must accept the bytes the Go compiler
 // emitted, (3) the model machine must compute what the Go machine computes.
 func vmCases(eng *engine, vars []envVar, vals map[string]*val.Val, src string, tag string) []Case {
-	if guardBegin("vmrun "+src) {
+	if guardBegin("vmrun " + src) {
 		return []Case{crashCase("vmrun " + src)}
 	}
 	defer guardEnd()
@@ -177,6 +177,102 @@ func vmCasesExpr(eng *engine, vars []envVar, vals map[string]*val.Val, d ast.Exp
 	}
 	rc.Want = o.line()
 	out = append(out, rc)
+	return out
+}
+
+// sharedCompilerCases: ONE vm.Compiler compiles several programs one after the other; afterwards
+// every unit — the first as well as the last — must still be what it was: the verified verifier
+// accepts its bytes against the pool as it is now, and running it gives what the closure back end
+// gives.  (A Compiler is an exported object: nothing says it is good for one expression only.)
+func sharedCompilerCases(eng *engine, vars []envVar, vals map[string]*val.Val, srcs []string, tag string) []Case {
+	human := "shared vm.Compiler: " + strings.Join(srcs, "  ;  ")
+	if len(human) > 300 {
+		human = human[:300] + "…"
+	}
+	if guardBegin(human) {
+		return []Case{crashCase(human)}
+	}
+	defer guardEnd()
+	type unit struct {
+		src string
+		d   ast.Expr
+		ty  *types.Type
+		u   *vm.Unit
+	}
+	var units []unit
+	comp := vm.NewCompile()
+	var out []Case
+	for _, src := range srcs {
+		parsed, perr := parseSrc(src)
+		if perr != nil {
+			continue
+		}
+		d := trans.Desugar(parsed)
+		ty, cerr := checkExpr(eng, vars, d)
+		if cerr != nil {
+			continue
+		}
+		var u *vm.Unit
+		refused := ""
+		func() {
+			defer func() {
+				if r := recover(); r != nil {
+					refused = fmt.Sprint(r)
+				}
+			}()
+			u = vm.CompileUnit(comp, d, eng.renv)
+		}()
+		if refused != "" {
+			if !strings.Contains(refused, "overflow") {
+				out = append(out, Case{Human: "vmcode[shared] " + src, Want: "refused", Tags: []string{tag}, Nontriv: true,
+					Oracle: "a shared vm.Compiler fails on an accepted program: " + refused, OracleID: "compile-internal-fault"})
+			}
+			continue
+		}
+		units = append(units, unit{src, d, ty, u})
+	}
+	for i, un := range units {
+		h := fmt.Sprintf("[shared #%d of %d] %s", i+1, len(units), un.src)
+		code, consts := un.u.Code(), un.u.Consts()
+		vc := Case{Human: "verify " + h, Tags: []string{tag, "verify", "shared-compiler"}, Nontriv: true}
+		vpool, _ := encPool(code, consts, false)
+		vc.Req = sxList("verify", hexCode(code), vpool)
+		vc.Want = "(ok true)"
+		out = append(out, vc)
+		// behaviour: the unit run now against the closure back end
+		rc := Case{Human: "vmrun " + h, Tags: []string{tag, "shared-compiler"}, Nontriv: true, Want: "same"}
+		ref := runBackend(backends[0], eng, un.d, vals, un.ty)
+		got := func() (o outcome) {
+			env1 := val.NewEnv()
+			for k, v := range vals {
+				env1.Put(k, v)
+			}
+			var res *val.Val
+			captureStdout(func() {
+				defer func() {
+					if r := recover(); r != nil {
+						o.class = classifyPanic(r)
+						o.msg = fmt.Sprint(r)
+					}
+				}()
+				res = un.u.Run(env1.Inherit(eng.renv))
+			})
+			if o.class == "" {
+				o.class = "ok"
+				o.value = safely(func() string { return encVal(res) })
+			}
+			return
+		}()
+		if got.class != ref.class || (got.class == "ok" && got.value != ref.value) {
+			rc.Want = "differs"
+			rc.Oracle = fmt.Sprintf("a unit of a shared vm.Compiler, run after later units were compiled: vm %s %s %s, closure %s %s", got.class, got.value, got.msg, ref.class, ref.value)
+			if len(rc.Oracle) > 600 {
+				rc.Oracle = rc.Oracle[:600]
+			}
+			rc.OracleID = "compile-internal-fault"
+		}
+		out = append(out, rc)
+	}
 	return out
 }
 
@@ -345,6 +441,12 @@ func init() {
 				g := &progGen{r: r, vars: envFamily, hosts: eng.hosts, stats: stats, sugar: true}
 				src := g.gen(targetTypes[r.Intn(len(targetTypes))], 1+r.Intn(4))
 				cs = append(cs, vmCases(eng, envFamily, vals, src, "prog:typed")...)
+				if i%25 == 7 {
+					// one Compiler for a handful of programs (fixed ones with strings, names,
+					// conditionals and lazy calls around the random one)
+					batch := []string{`n1 * 2 + 1`, `s1 + "x"`, src, `if(b1, lz(n1, 2), len(xs)) + 1`, `{a: n1, b: s1}.b + "n1"`, g.gen(targetTypes[r.Intn(len(targetTypes))], 1+r.Intn(3))}
+					cs = append(cs, sharedCompilerCases(eng, envFamily, vals, batch, "prog:shared-compiler")...)
+				}
 			}
 			return cs
 		},
